@@ -127,6 +127,7 @@ pub async fn run(seed: u64, sched: Rc<Sched>, keep_log: bool) -> (CaseResult, Ve
         persist_now: true,
         faults: Default::default(),
         n_actions: 0,
+        twins: 0,
     };
     let committee = crate::bft::cluster::make_committee(&cfg);
     let genesis = committee.genesis.clone();
